@@ -19,6 +19,12 @@ CHECKS = {
  "C13": dict(level="translation_validation", technique="TLA+ registry spec (Trace_RVRegistry over RVSpecData) evaluated by TLC on the import-time class registry; YAML read by an independent walker",
              text="Every class in rv.modules.MODULE_CLASSES is a Register event whose projected metadata TLC compares clause by clause with the specification data extracted from the YAML (group, flags, controller order/numbering/kind/bounds/members/defaults/unit tables, options byte/bit/size/number/default/inversion/exclusivity/bounds, options chunk number); the final state must register exactly the specified types. The comparison is complete over all 43 types, 502 controllers and 49 options.",
              ref="5/C13, 4 (RVRegistry)"),
+ "C09": dict(technique="TLA+ controller spec (RVCtl) model-checked by TLC over all types/controllers/units/modes; every probe executed on real module instances and judged by the trace spec",
+             text="MC_RVCtl enumerates assignments (min-1..max+1, every enum member by value and by name, invalid ones, booleans) for all 502 specified controllers under every unit in strict and lenient mode with the invariants 'strict fixed ranges stay in domain' and 'rejected assignment changes nothing'; the same complete probe set is executed on real instances through attribute assignment and constructor keywords (plus fresh defaults, and strictness re-probed after loads), and TLC judges outcome and read-back against the YAML-derived data.",
+             ref="5/C09, A.5"),
+ "C10": dict(technique="TLA+ encoding spec (RVCtl ToRaw/FromRaw/PatEnvelope) checked by TLC over every value of every class; complete enumeration of real get_raw/set_raw/pattern_value judged by the trace spec",
+             text="The finite domain is enumerated completely on both sides: TLC checks bijectivity, non-negativity and injectivity of the stored encoding over every value of every YAML range (all units), and the real get_raw/set_raw/pattern_value are called for every value of every controller of every type under every unit (reached by keyword, assignment, set_raw and clone); TLC checks the observed tables (lossless affine runs) against each controller's YAML range and the monotone/end-point envelope.",
+             ref="5/C10, A.5"),
 }
 PENDING = {}
 props = [json.loads(l) for l in open(os.path.join(HERE, "properties.jsonl"))]
